@@ -40,6 +40,15 @@ V3_CTX = {"E": "P", "RL": "T", "RC": "R", "CR": "H", "IR": "L", "AR": "M"}
 V3_ORDER = list(T.V3)
 V2_ORDER = list(T.V2)
 V4_ORDER = list(T.V4)
+# relation (d) writes every second group of vectors with the Modified metrics in front of the base
+# metrics they override: what is read last must not win
+V3_MODFIRST = T.V3_MODIFIED + [m for m in T.V3 if m not in T.V3_MODIFIED]
+V4_MODFIRST = T.V4_MODIFIED + [m for m in T.V4 if m not in T.V4_MODIFIED]
+
+
+def _alt(frag, plain, modfirst):
+    import zlib
+    return modfirst if zlib.crc32(frag.encode("utf-8")) % 2 else plain
 
 
 def rel_a_v3(fam, tier):
@@ -211,7 +220,8 @@ def rel_d_v3(fam, tier):
     ctx = {"E": "F", "RL": "W", "RC": "R", "CR": "H", "IR": "M", "AR": "L"}
 
     def expand(part):
-        _, val = part
+        frag, val = part
+        order = _alt(frag, V3_ORDER, V3_MODFIRST)
         mod = dict(("M" + m, v) for m, v in val.items())
         ref_base = val  # baseline: base == modified values
         asg = dict(ref_base, **mod)
@@ -221,11 +231,12 @@ def rel_d_v3(fam, tier):
         else:
             comp = dict((m, T.V3[m][(T.V3[m].index(v) + 1) % len(T.V3[m])]) for m, v in val.items())
             others = _hamming1(ref_base, T.V3, T.V3_BASE) + [comp]
-        vs = [spell(T.PREFIX[fam], dict(asg, **o), V3_ORDER) for o in others]
-        yield spell(T.PREFIX[fam], asg, V3_ORDER), vs, (2,)
+        vs = [spell(T.PREFIX[fam], dict(asg, **o), order) for o in others]
+        yield spell(T.PREFIX[fam], asg, order), vs, (2,)
 
     def expand_partial(part):
-        _, base = part
+        frag, base = part
+        order = _alt(frag, V3_ORDER, V3_MODFIRST)
         for sub in subsets(T.V3_MODIFIED, 2):
             if not sub:
                 continue
@@ -237,8 +248,8 @@ def rel_d_v3(fam, tier):
             for m in sub:
                 for v in T.V3[m[1:]]:
                     if v != base[m[1:]]:
-                        vs.append(spell(T.PREFIX[fam], dict(asg, **{m[1:]: v}), V3_ORDER))
-            yield spell(T.PREFIX[fam], asg, V3_ORDER), vs, (2,)
+                        vs.append(spell(T.PREFIX[fam], dict(asg, **{m[1:]: v}), order))
+            yield spell(T.PREFIX[fam], asg, order), vs, (2,)
 
     outer_p = spaces.v3_base_all()
     if tier != "thorough":
@@ -252,23 +263,25 @@ def rel_d_v4(tier):
     outer = v4_base_set(tier)
 
     def expand(part):
-        _, val = part
+        frag, val = part
+        order = _alt(frag, V4_ORDER, V4_MODFIRST)
         mod = dict(("M" + m, v) for m, v in val.items())
         asg = dict(val, **mod)
         asg.update(ctx)
         comp1 = dict((m, T.V4[m][(T.V4[m].index(v) + 1) % len(T.V4[m])]) for m, v in val.items())
         comp2 = dict((m, T.V4[m][(T.V4[m].index(v) - 1) % len(T.V4[m])]) for m, v in val.items())
         others = [comp1, comp2] + _hamming1(val, T.V4, T.V4_BASE)
-        base_line = spell(T.PREFIX["4.0"], asg, V4_ORDER)
-        vs = [spell(T.PREFIX["4.0"], dict(asg, **o), V4_ORDER) for o in others]
+        base_line = spell(T.PREFIX["4.0"], asg, order)
+        vs = [spell(T.PREFIX["4.0"], dict(asg, **o), order) for o in others]
         # the same under Safety delivered by MSI/MSA
         asg_s = dict(asg, MSI="S", MSA="S")
         yield base_line, vs, (0,)
-        yield (spell(T.PREFIX["4.0"], asg_s, V4_ORDER),
-               [spell(T.PREFIX["4.0"], dict(asg_s, **o), V4_ORDER) for o in others[:2]], (0,))
+        yield (spell(T.PREFIX["4.0"], asg_s, order),
+               [spell(T.PREFIX["4.0"], dict(asg_s, **o), order) for o in others[:2]], (0,))
 
     def expand_partial(part):
-        _, base = part
+        frag, base = part
+        order = _alt(frag, V4_ORDER, V4_MODFIRST)
         for sub in subsets(T.V4_MODIFIED, 2 if tier == "thorough" else 1):
             if not sub:
                 continue
@@ -279,8 +292,8 @@ def rel_d_v4(tier):
             for m in sub:
                 for v in T.V4[m[1:]]:
                     if v != base[m[1:]]:
-                        vs.append(spell(T.PREFIX["4.0"], dict(asg, **{m[1:]: v}), V4_ORDER))
-            yield spell(T.PREFIX["4.0"], asg, V4_ORDER), vs, (0,)
+                        vs.append(spell(T.PREFIX["4.0"], dict(asg, **{m[1:]: v}), order))
+            yield spell(T.PREFIX["4.0"], asg, order), vs, (0,)
 
     return [Rel("d.v4.full_override", "4.0", outer, expand),
             Rel("d.v4.partial_override", "4.0", outer if tier == "thorough" else spaces.thin(outer, 3),
